@@ -196,6 +196,8 @@ class RepeatedNodeWrapper(MutableSequence[_M]):
         assert isinstance(value, Iterable)
         values = list(value)
         r = indexes.range_from_index(index, len(self._repeated.items))
+        if r.step == 1 and r.stop < r.start:
+            r = range(r.start, r.start)  # empty slice: insert at start, like list does
         separators_before_last = (
             self._repeated.token_store.get_prev(self._repeated.items[0].first_token)
             if self._repeated.items else None)
